@@ -2,7 +2,8 @@
 
 1. TLC enumerates every path of the generator machines spec/WxmlGen.tla and spec/CssGen.tla up to a length bound
    (every prefix is an input: end of input in every context), checks that the machines are well formed and connected,
-   and walks long random paths (simulation).  A nesting family adds every opener nested to depths 1..64.
+   and walks long random paths (simulation).  spec/WxmlTags.tla adds every set of up to 2 (thorough 3) structural
+   directives on every element kind in every sibling / parent context; a nesting family every opener to depths 1..64.
 2. Every spelled path is pushed through *every* public entry point of both compilers in isolated worker processes
    (address-space limit, wall-clock budget, per-input parser-event fuel through the cfg-guarded hook): add_tmpl in
    normal and dev mode, all emitters, dependency queries, stringify with and without mangling (twice), and the
@@ -86,6 +87,55 @@ def nest_cases(depths):
                 out.append(op * d)
                 out.append(mid + cl * d)
     return out
+
+
+# spelling of spec/WxmlTags.tla cases
+TAG_CTX = {
+    "none": "%s", "afterIf": '<a wx:if="{{x}}"/>%s', "afterIfWs": '<a wx:if="{{x}}"/>\n  <!-- c -->\n%s',
+    "afterElif": '<a wx:if="{{x}}"/><a wx:elif="{{y}}"/>%s', "afterElse": '<a wx:if="{{x}}"/><a wx:else/>%s',
+    "afterFor": '<a wx:for="{{l}}"/>%s', "afterText": "text%s", "afterComment": "<!-- c -->%s",
+    "inFor": '<block wx:for="{{l}}" wx:key="k">%s</block>', "inIf": '<block wx:if="{{x}}">%s</block><block wx:else>e</block>',
+    "inTemplateDef": '<template name="t">%s</template><template is="t"/>', "inSlotHost": "<comp>%s</comp>", "inSlot": "<slot>%s</slot>",
+    "inInclude": '<include src="./b">%s</include>', "inWxs": '<wxs module="w">%s</wxs>',
+}
+DIR_SPELL = {
+    "wx:if": ['wx:if="{{a}}"', 'wx:if="a"', 'wx:if=""', "wx:if", "wx:if='{{ a }}'"],
+    "wx:elif": ['wx:elif="{{b}}"', 'wx:elif=""', "wx:elif", 'wx:elif="b"'],
+    "wx:else": ["wx:else", 'wx:else=""', 'wx:else="{{c}}"'],
+    "wx:for": ['wx:for="{{l}}"', 'wx:for=""', "wx:for", 'wx:for="ab"', 'wx:for="{{ 3 }}"'],
+    "wx:key": ['wx:key="k"', 'wx:key="*this"', 'wx:key="{{k}}"', "wx:key", 'wx:key=""'],
+    "wx:for-item": ['wx:for-item="it" wx:for-index="ix"', 'wx:for-item="{{it}}"', 'wx:for-item=""', 'wx:for-index="1x"'],
+    "slot": ['slot="s"', 'slot="{{s}}"', "slot", 'slot=""'],
+    "slot:x": ["slot:x", 'slot:x="y"', 'slot:x="{{y}}"', "slot:", 'slot:a-b="c"'],
+    "is": ['is="t"', 'is="{{t}}"', "is", 'is=""'],
+    "name": ['name="n"', 'name="{{n}}"', "name", 'name=""', 'name="t"'],
+    "data": ['data="{{a}}"', 'data="{{ {a: 1} }}"', 'data="a"', "data", 'data="{{...o, a}}"'],
+    "src": ['src="./b"', 'src="{{s}}"', "src", 'src=""', 'src="/abs/../b.wxml"'],
+    "module": ['module="m"', 'module="{{m}}"', "module", 'module=""', 'module="1"'],
+    "generic:g": ['generic:g="c"', 'generic:g="{{c}}"', "generic:g"],
+    "model:v": ['model:v="{{a.b}}"', 'model:v="{{a+1}}"', 'model:v="x"', "model:v"],
+    "wx:bogus": ['wx:bogus="1"', "wx:bogus", 'wx:="1"'],
+}
+DIR_ORDER = list(DIR_SPELL)
+
+
+def spell_tag(c, n, rnd):
+    dirs = sorted(c["dirs"], key=DIR_ORDER.index)
+    if n % 3 == 1:
+        dirs.reverse()
+    elif n % 3 == 2:
+        rnd.shuffle(dirs)
+    attrs = "".join(" " + DIR_SPELL[d][(n // 3 + i) % len(DIR_SPELL[d])] for i, d in enumerate(dirs))
+    k = c["kind"]
+    if c["form"] == "self":
+        t = "<%s%s/>" % (k, attrs)
+    elif c["form"] == "content":
+        t = "<%s%s>x{{v}}</%s>" % (k, attrs, k)
+    elif c["form"] == "unclosed":
+        t = "<%s%s>x" % (k, attrs)
+    else:
+        t = "<%s%s><%s%s/></%s>" % (k, attrs, k, attrs, k)
+    return TAG_CTX[c["ctx"]] % t
 
 
 MUT_CHARS = [" ", " ", "　", "\u0085", "​", "\x00", "\U0001F600", "<", ">", "{{", "}}", "\"", "'", "&", "/", "=", "\\", "(", ")", "[", "]", "{", "}",
@@ -250,6 +300,14 @@ def run(tier, seed, replay):
         judge(cases, totalrun.supervise(cases))
         ck.notes.append("%s walks: %d paths of 120 steps" % (module, len(res.cases)))
         ck.states += res.distinct
+
+    # ---- 1b'. structural directive combinations (spec/WxmlTags.tla)
+    res = vlib.tlc("WxmlTags", "WxmlTags_2" if quick else "WxmlTags_3", workers=4, timeout=1800, sample=(2, seed) if quick else (3, seed))
+    vlib.tlc_expect_ok(res, "WxmlTags")
+    ck.add_tlc(res)
+    cases = [mk_case(spell_tag(c, n, rnd), n, "tags") for n, c in enumerate(res.cases)]
+    judge(cases, totalrun.supervise(cases))
+    ck.notes.append("directive combinations: %d of %d (context, kind, directive set, form) cases" % (len(cases), res.ncases))
 
     # ---- 1c. nesting to depth 64
     depths = (1, 2, 8, 33, 64) if quick else (1, 2, 3, 4, 8, 16, 32, 48, 63, 64)
